@@ -516,7 +516,7 @@ impl<TStdlib: Stdlib, TStdIn: Input, TStdOut: Printer, TLpt1: Printer>
                     .push((self.register_stack.len(), self.value_stack.len()));
                 ctx.opt_next_index = Some(address_or_label.address());
             }
-            Instruction::Return(opt_address) => match self.go_sub_address_stack.pop() {
+            Instruction::Return(opt_address) => match self.pop_go_sub_address() {
                 Some(address) => {
                     // the FOR loops and SELECT CASE blocks of the routine that the
                     // RETURN leaves
@@ -732,6 +732,18 @@ impl<TStdlib: Stdlib, TStdIn: Input, TStdOut: Printer, TLpt1: Printer>
 
     /// Gets the instruction address where the most recent error occurred.
     /// Clears that address and also clears the most recent error code.
+    /// Pops the address of the most recent GOSUB of the procedure that is
+    /// running: a GOSUB that is pending in a caller cannot be answered by a
+    /// RETURN of the callee.
+    fn pop_go_sub_address(&mut self) -> Option<usize> {
+        let pending_in_callers = self.return_marks.last().map(|marks| marks.1).unwrap_or(0);
+        if self.go_sub_address_stack.len() > pending_in_callers {
+            self.go_sub_address_stack.pop()
+        } else {
+            None
+        }
+    }
+
     fn take_last_error_address(&mut self) -> Result<usize, RuntimeError> {
         self.last_error_code = None;
         match self.last_error_address.take() {
